@@ -1324,7 +1324,9 @@ class SyncManager(Runnable):
 
                 if ents:
                     conflict = ents[0]
-                    conflict.get_latest()
+                    # about to delete it: ask the providers, whatever the change stamps say (an edit whose event is still on its way
+                    # leaves the stamps untouched)
+                    conflict.get_latest(force=True)
                     if not conflict[LOCAL].needs_sync() and not conflict[REMOTE].needs_sync():
                         # file is up to date, we're replacing a known synced copy
                         try:
